@@ -9,6 +9,42 @@ def run(ctx: Ctx) -> None:
     S.wrapper_forward(ctx, cls)
     S.ctor_forward(ctx, cls)
     ctx.floor("E7.wrapper-forward", 40)
+    from ..tables import t17_regularisers
+    t17_regularisers.run_regularisers(ctx)
+    t17_regularisers.run_lame(ctx)
+    t17_regularisers.run_inverse_consistency(ctx)
+    ctx.floor("T17.values", 2)
+    ctx.floor("T10.lame", 8)
+    ctx.floor("T17.inverse-consistency", 4)
     from .C16 import FLOW_FUNCS
     e4(ctx, ["deepali.losses.functional", "deepali.losses.flow", "deepali.losses.bspline"],
        only=lambda fi: fi.module.name != "deepali.losses.functional" or fi.qualname.split(".")[0] in FLOW_FUNCS)
+
+
+def mutants(prog):
+    from .common import source_sub
+    L = "deepali.losses.functional"
+    specs = [
+        ("bending mixed weight", L, "bending_loss", "value = value.mul_(2)", "value = value.mul_(1)", "T17.values"),
+        ("curvature half", L, "curvature_loss", "return loss.mul_(0.5)", "return loss.mul_(0.25)", "T17.values"),
+        ("diffusion half", L, "diffusion_loss", "return loss.mul_(0.5)", "return loss", "T17.values"),
+        ("divergence half", L, "divergence_loss", "return loss.mul_(0.5)", "return loss.mul_(2)", "T17.values"),
+        ("elasticity lambda", L, "elasticity_loss", "loss = loss.square_().mul_(lambd / 2)", "loss = loss.square_().mul_(lambd)", "T17.values"),
+        ("elasticity mu", L, "elasticity_loss", "mul_(mu / 4)", "mul_(mu / 2)", "T17.values"),
+        ("elasticity symmetric part", L, "elasticity_loss", "dkj = deriv[FlowDerivativeKeys.symbol(k, j)]", "dkj = deriv[FlowDerivativeKeys.symbol(j, k)]", "T17.values"),
+        ("tv norm", L, "total_variation_loss", "grad_loss(u, p=1, q=1,", "grad_loss(u, p=2, q=1,", "T17.values"),
+        ("default spacing order", L, "grad_loss", "spacing = tuple(reversed([2 / (n - 1) for n in u.shape[2:]]))", "spacing = tuple([2 / (n - 1) for n in u.shape[2:]])", "default spacing"),
+        ("default spacing n", L, "grad_loss", "2 / (n - 1)", "2 / n", "default spacing"),
+        ("lame nu E", L, "lame_parameters", "second_parameter = youngs_modulus / (2 * (1 + poissons_ratio))", "second_parameter = youngs_modulus / (2 * (1 - poissons_ratio))", "T10.lame"),
+        ("lame mu nu", L, "lame_parameters", "first_parameter = 2 * shear_modulus * poissons_ratio / (1 - 2 * poissons_ratio)", "first_parameter = shear_modulus * poissons_ratio / (1 - 2 * poissons_ratio)", "T10.lame"),
+        ("lame mu E", L, "lame_parameters", "(3 * shear_modulus - youngs_modulus)", "(3 * shear_modulus + youngs_modulus)", "T10.lame"),
+        ("lame lambda nu", L, "lame_parameters", "first_parameter * (1 - 2 * poissons_ratio) / (2 * poissons_ratio)", "first_parameter * (1 - 2 * poissons_ratio) / poissons_ratio", "T10.lame"),
+        ("lame lambda E parentheses", L, "lame_parameters", "second_parameter = (youngs_modulus - 3 * first_parameter + r) / 4", "second_parameter = youngs_modulus - 3 * first_parameter + r / 4", "T10.lame"),
+        ("ic units convention", L, "inverse_consistency_loss", "align_corners=grid.align_corners(), channels_last=True", "channels_last=True", "T17.inverse-consistency"),
+        ("ic world spacing", L, "inverse_consistency_loss", "error *= grid.spacing().to(error)", "error *= 1", "T17.inverse-consistency"),
+        ("ic forward convention", L, "inverse_consistency_loss", "y = transform_points(inverse, y, align_corners=grid.align_corners())", "y = transform_points(forward, y, align_corners=grid.align_corners())", "T17.inverse-consistency"),
+    ]
+    for name, mod, fn, old, new, expect in specs:
+        ov = source_sub(prog, mod, fn, old, new)
+        if ov is not None:
+            yield (name, ov, expect)
